@@ -521,10 +521,12 @@ def healthcheckFQDN : Bytes :=
 structure Upstream where
   rcode : Nat
   answer : List RR
+  /-- the authority section (never looked at by the response filter) -/
+  ns : List RR := []
   deriving Repr
 
 def Upstream.exchange (u : Upstream) (q : Query) : Msg :=
-  { rcode := u.rcode, qname := q.name, qtype := q.qtype, answer := u.answer }
+  { rcode := u.rcode, qname := q.name, qtype := q.qtype, answer := u.answer, ns := u.ns }
 
 /-- `processInitial`: the queries the server answers itself before any filtering. -/
 def shortCircuit (c : Conf) (q : Query) : Option Outcome :=
